@@ -4,6 +4,7 @@ import OSq.Proofs.Equality
 import OSq.Proofs.Compose
 import OSq.Sem.Circuit
 import Mathlib.Analysis.SpecialFunctions.Complex.Arg
+import Mathlib.Analysis.SpecialFunctions.Trigonometric.Bounds
 import Mathlib.Tactic.Linarith
 import Mathlib.Tactic.NormNum
 import Mathlib.Tactic.FieldSimp
@@ -38,6 +39,15 @@ import Mathlib.Tactic.Ring
   * `gateOp_ctrl_bsr`      the register operator of `.ctrl c (.bsr t …)` is `ctrlSpec n c t (rot …)`
   * `cnot_exact`, `cz_exact`, `cnot_cz_exact`   accepted + honest closeness tests ⇒ the target operator **equals** `σx` (`σz`),
                            the exporter emits `cnot c t` (`cz c t`), and the register operator is `ctrlSpec n c t σx` (`σz`)
+  * `round5_real`, `round5_error`   `round5 x = roundTo 1e5 x`, `|round5 x − x| ≤ 5e-6`;  `rad_round5_error`: `≤ (π/180)·5e-6` in radians
+  * `rot_entries`          real and imaginary parts of the entries of `rot n θ 0`;  `chord_le`: chord ≤ arc
+  * `rot_lipschitz_angle`  unit axis: `‖rot n θ 0 i j − rot n θ' 0 i j‖ ≤ |θ − θ'|/2`
+  * `rot_lipschitz_inplane`  `‖rot (cos φ, sin φ, 0) θ 0 i j − rot (cos φ', sin φ', 0) θ 0 i j‖ ≤ |φ − φ'|`
+  * `roundTol = (π/180)·5e-6·(1/2 + 1)` (`roundTol_lt`: `< 1.7e-7`), `opRxy_round_error`, `opRz_round_error`
+  * `rxy_denotes_rounded`  the op actually emitted (rounded degrees) agrees with the statement's operator, up to the global
+                           phase, within `roundTol` in every entry;  `rz_denotes_rounded`: same, even within `(π/180)·5e-6/2`
+  * `sopMatrix`, `sched_rot_denotes`   summary: whatever op the exporter emits for a crisp unit-axis rotation is a
+                           single-qubit rotation on the same qubit within `roundTol` of the statement (up to its phase)
   * `rot_x_pi`, `sched_ctrl_phase_sensitive`   `Rx(π) = −i σx` is accepted neither as `X` nor as `Z` for `0 < atol < 1/2`; a
                            controlled `Rx(π)` is refused (`schedGateOp … = none`, i.e. `ExporterError`)
 -/
@@ -325,6 +335,192 @@ theorem sched_ctrl_phase_sensitive (atol : ℝ) (h0 : 0 < atol) (h1 : atol < 1 /
       linarith
   exact ⟨hX, hZ, by simp [schedGateOp, ctrlOp, hX, hZ]⟩
 
+/-! ### 4. The 5-decimal rounding of the degrees -/
+
+/-- the model's scale literal `(1e5 : α)` at `α := ℝ` -/
+theorem round5_real (x : ℝ) : round5 x = roundTo 100000 x := by
+  unfold round5
+  congr 1
+  show (1e5 : ℝ) = _
+  norm_num
+
+/-- `round(x, 5)` moves `x` by at most half a unit of the fifth decimal -/
+theorem round5_error (x : ℝ) : |round5 x - x| ≤ 5e-6 := by
+  rw [round5_real]
+  have := roundTo_error 100000 x (by norm_num)
+  norm_num at this ⊢
+  exact this
+
+theorem rad_sub (d d' : ℝ) : |rad d - rad d'| = Real.pi / 180 * |d - d'| := by
+  unfold rad
+  rw [← sub_mul, abs_mul, abs_of_pos (by positivity : (0 : ℝ) < Real.pi / 180), mul_comm]
+
+/-- in radians the rounding error is at most `(π/180)·5e-6` -/
+theorem rad_round5_error (x : ℝ) : |rad (degrees x) - rad (round5 (degrees x))| ≤ Real.pi / 180 * 5e-6 := by
+  rw [rad_sub, abs_sub_comm]
+  exact mul_le_mul_of_nonneg_left (round5_error _) (by positivity)
+
+/-- entries of `rot n θ 0`, real and imaginary parts -/
+theorem rot_entries (n : ℝ × ℝ × ℝ) (θ : ℝ) :
+    rot n θ 0 = !![(⟨Real.cos (θ / 2), -(Real.sin (θ / 2) * n.2.2)⟩ : ℂ),
+                    ⟨-(Real.sin (θ / 2) * n.2.1), -(Real.sin (θ / 2) * n.1)⟩;
+                   ⟨Real.sin (θ / 2) * n.2.1, -(Real.sin (θ / 2) * n.1)⟩,
+                    ⟨Real.cos (θ / 2), Real.sin (θ / 2) * n.2.2⟩] := by
+  rw [rot_eq]
+  ext i j
+  fin_cases i <;> fin_cases j <;> apply Complex.ext <;>
+    simp [-Complex.ofReal_sin, -Complex.ofReal_cos]
+
+theorem norm_le_of_normSq_le (z : ℂ) (B : ℝ) (hB : 0 ≤ B) (h : Complex.normSq z ≤ B ^ 2) : ‖z‖ ≤ B := by
+  rw [Complex.norm_def]
+  calc Real.sqrt (Complex.normSq z) ≤ Real.sqrt (B ^ 2) := Real.sqrt_le_sqrt h
+    _ = B := Real.sqrt_sq hB
+
+/-- the chord is shorter than the arc -/
+theorem chord_le (a b : ℝ) : (Real.cos a - Real.cos b) ^ 2 + (Real.sin a - Real.sin b) ^ 2 ≤ (a - b) ^ 2 := by
+  have h1 : (Real.cos a - Real.cos b) ^ 2 + (Real.sin a - Real.sin b) ^ 2 = 2 - 2 * Real.cos (a - b) := by
+    rw [Real.cos_sub]
+    nlinarith [Real.sin_sq_add_cos_sq a, Real.sin_sq_add_cos_sq b]
+  have h2 := Real.one_sub_sq_div_two_le_cos (x := a - b)
+  rw [h1]; linarith
+
+theorem sin_sub_sq_le (a b : ℝ) : (Real.sin a - Real.sin b) ^ 2 ≤ (a - b) ^ 2 := by
+  have := chord_le a b
+  nlinarith [sq_nonneg (Real.cos a - Real.cos b)]
+
+/-- **Lipschitz bound in the rotation angle**: for a unit axis every entry of `rot n θ 0` moves by at most
+    `|θ − θ'|/2`. -/
+theorem rot_lipschitz_angle (n : ℝ × ℝ × ℝ) (hn : n.1 ^ 2 + n.2.1 ^ 2 + n.2.2 ^ 2 = 1) (θ θ' : ℝ)
+    (i j : Fin 2) : ‖rot n θ 0 i j - rot n θ' 0 i j‖ ≤ |θ - θ'| / 2 := by
+  obtain ⟨nx, ny, nz⟩ := n
+  simp only at hn
+  have hB : 0 ≤ |θ - θ'| / 2 := by positivity
+  have hc := chord_le (θ / 2) (θ' / 2)
+  have hs := sin_sub_sq_le (θ / 2) (θ' / 2)
+  have hd : (θ / 2 - θ' / 2) ^ 2 = (|θ - θ'| / 2) ^ 2 := by
+    rw [div_pow, sq_abs]; ring
+  rw [hd] at hc hs
+  have hz : nz ^ 2 ≤ 1 := by nlinarith [sq_nonneg nx, sq_nonneg ny]
+  have hxy : nx ^ 2 + ny ^ 2 ≤ 1 := by nlinarith [sq_nonneg nz]
+  have hS := sq_nonneg (Real.sin (θ / 2) - Real.sin (θ' / 2))
+  rw [rot_entries, rot_entries]
+  apply norm_le_of_normSq_le _ _ hB
+  fin_cases i <;> fin_cases j <;> simp [Complex.normSq_apply]
+  · nlinarith [mul_nonneg hS (sub_nonneg.mpr hz)]
+  · nlinarith [mul_nonneg hS (sub_nonneg.mpr hxy)]
+  · nlinarith [mul_nonneg hS (sub_nonneg.mpr hxy)]
+  · nlinarith [mul_nonneg hS (sub_nonneg.mpr hz)]
+
+/-- **Lipschitz bound in the direction of an in-plane axis**: every entry of `rot (cos φ, sin φ, 0) θ 0` moves by at
+    most `|φ − φ'|`. -/
+theorem rot_lipschitz_inplane (φ φ' θ : ℝ) (i j : Fin 2) :
+    ‖rot (Real.cos φ, Real.sin φ, 0) θ 0 i j - rot (Real.cos φ', Real.sin φ', 0) θ 0 i j‖ ≤ |φ - φ'| := by
+  have hB : 0 ≤ |φ - φ'| := abs_nonneg _
+  have hc := chord_le φ φ'
+  have hs1 : Real.sin (θ / 2) ^ 2 ≤ 1 := Real.sin_sq_le_one _
+  have hC := add_nonneg (sq_nonneg (Real.cos φ - Real.cos φ')) (sq_nonneg (Real.sin φ - Real.sin φ'))
+  rw [rot_entries, rot_entries]
+  apply norm_le_of_normSq_le _ _ hB
+  fin_cases i <;> fin_cases j <;> simp [Complex.normSq_apply]
+  · positivity
+  · nlinarith [mul_nonneg hC (sub_nonneg.mpr hs1)]
+  · nlinarith [mul_nonneg hC (sub_nonneg.mpr hs1)]
+  · positivity
+
+/-- the tolerance of the exported rotation: `(π/180)·5e-6·(1/2 + 1)` (about `1.3e-7`) per matrix entry -/
+noncomputable def roundTol : ℝ := Real.pi / 180 * 5e-6 * (1 / 2 + 1)
+
+theorem norm_exp_I_mul' (x : ℝ) : ‖Complex.exp (I * x)‖ = 1 := norm_exp_I_mul x
+
+/-- rounding both arguments of `Rxy` moves every entry by at most `roundTol` -/
+theorem opRxy_round_error (θ φ : ℝ) (i j : Fin 2) :
+    ‖opRxy (degrees θ) (degrees φ) i j - opRxy (round5 (degrees θ)) (round5 (degrees φ)) i j‖ ≤ roundTol := by
+  unfold opRxy
+  set a := rad (degrees φ)
+  set a' := rad (round5 (degrees φ))
+  set t := rad (degrees θ)
+  set t' := rad (round5 (degrees θ))
+  have hu : ((Real.cos a, Real.sin a, (0 : ℝ)) : ℝ × ℝ × ℝ).1 ^ 2 + (Real.cos a, Real.sin a, (0 : ℝ)).2.1 ^ 2
+      + (Real.cos a, Real.sin a, (0 : ℝ)).2.2 ^ 2 = 1 := by
+    simp only; nlinarith [Real.sin_sq_add_cos_sq a]
+  have h1 := rot_lipschitz_angle (Real.cos a, Real.sin a, 0) hu t t' i j
+  have h2 := rot_lipschitz_inplane a a' t' i j
+  have e1 : |t - t'| ≤ Real.pi / 180 * 5e-6 := rad_round5_error θ
+  have e2 : |a - a'| ≤ Real.pi / 180 * 5e-6 := rad_round5_error φ
+  calc ‖rot (Real.cos a, Real.sin a, 0) t 0 i j - rot (Real.cos a', Real.sin a', 0) t' 0 i j‖
+      = ‖(rot (Real.cos a, Real.sin a, 0) t 0 i j - rot (Real.cos a, Real.sin a, 0) t' 0 i j)
+          + (rot (Real.cos a, Real.sin a, 0) t' 0 i j - rot (Real.cos a', Real.sin a', 0) t' 0 i j)‖ := by
+        congr 1; ring
+    _ ≤ |t - t'| / 2 + |a - a'| := le_trans (norm_add_le _ _) (add_le_add h1 h2)
+    _ ≤ roundTol := by unfold roundTol; linarith
+
+theorem opRz_round_error (θ : ℝ) (i j : Fin 2) :
+    ‖opRz (degrees θ) i j - opRz (round5 (degrees θ)) i j‖ ≤ Real.pi / 180 * 5e-6 / 2 := by
+  unfold opRz
+  have h1 := rot_lipschitz_angle (0, 0, 1) (by norm_num) (rad (degrees θ)) (rad (round5 (degrees θ))) i j
+  have e1 := rad_round5_error θ
+  linarith
+
+theorem phase_smul_sub (φg : ℝ) (A B : Matrix (Fin 2) (Fin 2) ℂ) (i j : Fin 2) :
+    ‖(Complex.exp (I * φg) • A) i j - Complex.exp (I * φg) * B i j‖ = ‖A i j - B i j‖ := by
+  rw [Matrix.smul_apply, smul_eq_mul, ← mul_sub, norm_mul, norm_exp_I_mul', one_mul]
+
+/-- **C11, in-plane axis, as emitted.**  The operation actually emitted, `Rxy(round5 (degrees θ), round5 (degrees φ))`,
+    differs entrywise from the statement's operator, up to the global phase `e^{iφ_g}`, by at most
+    `roundTol = (π/180)·5e-6·(1/2 + 1)`. -/
+theorem rxy_denotes_rounded (atol x y z θ φg : ℝ) (hunit : x ^ 2 + y ^ 2 + z ^ 2 = 1)
+    (hz : |z| < atol) (hcrisp : |z| < atol → z = 0) (i j : Fin 2) :
+    ‖rot (x, y, z) θ φg i j
+        - Complex.exp (I * φg) * opRxy (round5 (degrees θ)) (round5 (degrees (Trig.atan2 y x))) i j‖
+      ≤ roundTol := by
+  rw [rxy_denotes_exact atol x y z θ φg hunit hz hcrisp, phase_smul_sub]
+  exact opRxy_round_error θ _ i j
+
+/-- **C11, z axis, as emitted.**  Same for `Rz(round5 (degrees (±θ)))`; the bound is even `(π/180)·5e-6/2`. -/
+theorem rz_denotes_rounded (atol x y z θ φg : ℝ) (hunit : x ^ 2 + y ^ 2 + z ^ 2 = 1)
+    (hx : |x| < atol) (hy : |y| < atol) (hcx : |x| < atol → x = 0) (hcy : |y| < atol → y = 0) (i j : Fin 2) :
+    ‖rot (x, y, z) θ φg i j
+        - Complex.exp (I * φg) * opRz (round5 (degrees (if 0 < z then θ else -θ))) i j‖
+      ≤ Real.pi / 180 * 5e-6 / 2 ∧
+    ‖rot (x, y, z) θ φg i j
+        - Complex.exp (I * φg) * opRz (round5 (degrees (if 0 < z then θ else -θ))) i j‖
+      ≤ roundTol := by
+  rw [rz_denotes_exact atol x y z θ φg hunit hx hy hcx hcy, phase_smul_sub]
+  have h := opRz_round_error (if 0 < z then θ else -θ) i j
+  refine ⟨h, le_trans h ?_⟩
+  unfold roundTol
+  have : 0 ≤ Real.pi / 180 * 5e-6 := by positivity
+  linarith
+
+/-- the single-qubit operator of a schedule operation (`none` for two-qubit gates, measurements, resets) -/
+noncomputable def sopMatrix : SOp ℝ → Option (Int × Matrix (Fin 2) (Fin 2) ℂ)
+  | .rxy q θ φ => some (q, opRxy θ φ)
+  | .rz q θ => some (q, opRz θ)
+  | _ => none
+
+/-- **C11, rotations, summary.**  For a rotation statement with a unit axis on which the exporter's axis tests are
+    honest (crisp): if the exporter emits an operation, that operation is a single-qubit rotation on the same qubit
+    whose operator agrees with the statement's operator, up to the statement's global phase, within `roundTol`
+    in every entry. -/
+theorem sched_rot_denotes (atol : ℝ) (q : Int) (x y z θ φg : ℝ) (hunit : x ^ 2 + y ^ 2 + z ^ 2 = 1)
+    (hcx : |x| < atol → x = 0) (hcy : |y| < atol → y = 0) (hcz : |z| < atol → z = 0)
+    (o : SOp ℝ) (ho : schedGateOp atol (.bsr q (x, y, z) θ φg) = some o) :
+    ∃ M, sopMatrix o = some (q, M) ∧
+      ∀ i j : Fin 2, ‖rot (x, y, z) θ φg i j - Complex.exp (I * φg) * M i j‖ ≤ roundTol := by
+  by_cases hz : |z| < atol
+  · have h := (sched_rxy_exact atol q x y z θ φg hunit hz hcz).1
+    rw [h] at ho; injection ho with ho; subst ho
+    exact ⟨_, rfl, fun i j => rxy_denotes_rounded atol x y z θ φg hunit hz hcz i j⟩
+  · by_cases hxy : |x| < atol ∧ |y| < atol
+    · have h := (sched_rz_exact atol q x y z θ φg hunit hz hxy.1 hxy.2 hcx hcy).1
+      rw [h] at ho; injection ho with ho; subst ho
+      exact ⟨_, rfl, fun i j => (rz_denotes_rounded atol x y z θ φg hunit hxy.1 hxy.2 hcx hcy i j).2⟩
+    · exfalso
+      have : schedGateOp atol (.bsr q (x, y, z) θ φg) = none := by
+        simp only [schedGateOp, bsrOp_eq_none_iff, absS_real]
+        exact ⟨hz, hxy⟩
+      rw [this] at ho; cases ho
+
 /-! ### Non-vacuity -/
 
 -- `Ry(θ)`: in-plane axis `(0,1,0)`, exported as `Rxy(θ°, 90°)` (atan2 1 0 = π/2), and it denotes the same operator
@@ -359,6 +555,27 @@ example (c t : Int) :
 example (c t : Int) : schedGateOp (1e-7 : ℝ) (.ctrl c (.bsr t (1, 0, 0) Real.pi 0)) = none :=
   (sched_ctrl_phase_sensitive (1e-7) (by norm_num) (by norm_num) c t).2.2
 
+theorem roundTol_lt : roundTol < 1.7e-7 := by
+  unfold roundTol
+  have := Real.pi_le_four
+  norm_num
+  linarith
+
+-- the summary on `Ry(θ)` with a global phase: the emitted `Rxy` is within `roundTol` of the statement's operator
+example (θ φg : ℝ) : ∃ M, sopMatrix (.rxy 3 (round5 (degrees θ)) (round5 (degrees (Trig.atan2 1 0)))) = some (3, M) ∧
+    ∀ i j : Fin 2, ‖rot (0, 1, 0) θ φg i j - Complex.exp (I * φg) * M i j‖ ≤ roundTol :=
+  sched_rot_denotes (1e-7) 3 0 1 0 θ φg (by norm_num) (fun _ => rfl) (fun h => by norm_num at h) (fun _ => rfl) _
+    (sched_rxy_exact (1e-7) 3 0 1 0 θ φg (by norm_num) (by norm_num) (fun _ => rfl)).1
+
+-- … and on a rotation about `−z`
+example (θ φg : ℝ) (i j : Fin 2) :
+    ‖rot (0, 0, -1) θ φg i j
+        - Complex.exp (I * φg) * opRz (round5 (degrees (if (0 : ℝ) < -1 then θ else -θ))) i j‖ ≤ roundTol :=
+  (rz_denotes_rounded (1e-7) 0 0 (-1) θ φg (by norm_num) (by norm_num) (by norm_num) (fun _ => rfl)
+    (fun _ => rfl) i j).2
+
+example : |round5 (1 / 3 : ℝ) - 1 / 3| ≤ 5e-6 := round5_error _
+
 end OSq.SchedSem
 
 #print axioms OSq.SchedSem.degrees_radians
@@ -372,3 +589,9 @@ end OSq.SchedSem
 #print axioms OSq.SchedSem.cz_exact
 #print axioms OSq.SchedSem.cnot_cz_exact
 #print axioms OSq.SchedSem.sched_ctrl_phase_sensitive
+#print axioms OSq.SchedSem.round5_error
+#print axioms OSq.SchedSem.rot_lipschitz_angle
+#print axioms OSq.SchedSem.rot_lipschitz_inplane
+#print axioms OSq.SchedSem.rxy_denotes_rounded
+#print axioms OSq.SchedSem.rz_denotes_rounded
+#print axioms OSq.SchedSem.sched_rot_denotes
